@@ -39,7 +39,7 @@ PROPS['C09'] = dict(
                  'universal generalisation over the ghost matrix cell (kv_gi,kv_gj) and ghost word index is the only step outside the verifier'],
 )
 Q(id='C09.aln_param_init', props=['C09'], cls='P', harness='c09_aln_param_init.c', entry='h_c09_aln_param_init',
-  mode='wrap', unwind=24, timeout=600, funcs=['aln_param_init', 'set_subm_gaps_DNA', 'set_subm_gaps_DNA_internal', 'set_subm_gaps_RNA',
+  mode='wrap', unwind=24, timeout=600, solver=['--sat-solver', 'cadical'], funcs=['aln_param_init', 'set_subm_gaps_DNA', 'set_subm_gaps_DNA_internal', 'set_subm_gaps_RNA',
                                                'set_subm_gaps_CorBLOSUM66_13plus', 'set_subm_gaps_gon250', 'aln_param_free'],
   trusted=[TRUST_MSG], assumptions=[A_NOFAIL, A_WRAP],
   native_srcs=['lib/src/tldevel.c'])
@@ -52,3 +52,19 @@ Q(id='C09.run_kalign', props=['C09', 'C05'], cls='P', harness='c09_run_kalign.c'
   trusted=[TRUST_MSG, 'kalign_read_input/kalign_run/kalign_write_msa/kalign_free_msa replaced by recording stubs in this query (their own contracts are checked in other queries)'],
   assumptions=[A_WRAP, A_NOFAIL],
   native_srcs=['lib/src/tldevel.c', 'lib/src/tlmisc.c'])
+
+# =========================================================================== alphabets (C14, C05)
+Q(id='C14.create_alphabet', props=['C14', 'C05'], cls='P', harness='c14_alphabet.c', entry='h_c14_alphabet',
+  mode='dfcc', enforce=['create_alphabet'], unwind=130, timeout=600,
+  funcs=['create_alphabet', 'create_default_protein', 'create_protein_BZX', 'create_default_DNA', 'create_reduced_protein',
+         'create_reduced_protein2', 'merge_codes', 'merge_multiple', 'clean_and_set_to_extern'],
+  trusted=[TRUST_MSG], assumptions=[A_NOFAIL], native_srcs=['lib/src/tldevel.c'])
+PROPS['C14'] = dict(level='other', level_text='x', level_note='x', technique='x')
+Q(id='C05.convert_msa_to_internal', props=['C05', 'C14'], cls='P', harness='c05_convert.c', entry='h_c05_convert',
+  mode='dfcc', loop_contracts=True, loops_files=['msa_op.convert.loops'], enforce=['convert_msa_to_internal'], replace=['create_alphabet'], unwind=130, timeout=900,
+  defs=['-DKV_CONTRACT_CONVERT2'],
+  srcs=[], funcs=['convert_msa_to_internal'], replayable=False,
+  trusted=[TRUST_MSG, 'create_alphabet replaced by its contract (proved in C14.create_alphabet)'],
+  assumptions=[A_NOFAIL, 'data invariant: residues stored in seq->seq[] are ASCII letters (established by the readers, see C04/C05 reader queries); instantiated for the ghost residue only',
+               'sequence loop unwound for 2 sequences (each iteration independent); residue loop closed by invariant for any length'])
+PROPS['C05'] = dict(level='other', level_text='x', level_note='x', technique='x')
